@@ -3,7 +3,7 @@
    specification vocabulary (monitors, honest broker over a log): Model/ConsumerLog.v. *)
 From AV Require Import Base.Util Model.Consumer Model.ConsumerLog Model.ConsumerLogFifo Model.ConsumerLogSeg
   Proofs.ConsumerC02Extract Proofs.ConsumerC02ReqRun Proofs.ConsumerC02PwRun Proofs.ConsumerC02Fifo Proofs.ConsumerC02FifoRun
-  Proofs.ConsumerC02Log Proofs.ConsumerC02Idle.
+  Proofs.ConsumerC02Log Proofs.ConsumerC02Idle Proofs.ConsumerC02NoFuel.
 
 (* At most one offset/fetch request is outstanding and at most one refetch timer is armed, at every moment of every run:
    the monitor REQ (Model/ConsumerLog.v: rejects a request sent while one is outstanding, a refetch timer armed while
@@ -95,6 +95,41 @@ Theorem C02_never_idle : forall fuel c maxatt buf evs,
   startd_unfired s = true -> s_shutting s = false -> (is_some (s_req s) || rcall_active s) = true.
 Proof. exact never_idle. Qed.
 Print Assumptions C02_never_idle.
+
+(* ---- the same run-level statements WITHOUT the fuel hypothesis ----
+   By b-consumer-a's fuel_enough (every run from a configuration the constructor accepts has a fuel from which on the
+   interpreter never runs out; Proofs/ConsumerFuelEnoughRun.v): for every configuration with auto_commit_every_n >= 0
+   and every event list there is a fuel f0 such that for EVERY fuel >= f0 the statement holds outright.  (The harness
+   derives its fuel from the input size and reports any OFuel output.) *)
+Theorem C02_single_fetch_any_fuel : forall c maxatt buf evs, 0 <= c_acn c -> exists f0, forall fuel, (f0 <= fuel)%nat ->
+  mon_run req_ev req_out q0 (model_obs fuel c maxatt buf evs) = Some (req_abs (fst (run_events fuel (init c maxatt buf) evs))).
+Proof. exact req_any_fuel. Qed.
+Print Assumptions C02_single_fetch_any_fuel.
+Theorem C02_no_overlap_any_fuel : forall c maxatt buf evs, 0 <= c_acn c -> exists f0, forall fuel, (f0 <= fuel)%nat ->
+  mon_run pw_ev pw_out pw0 (model_obs fuel c maxatt buf evs) = Some (pw_abs None (fst (run_events fuel (init c maxatt buf) evs))).
+Proof. exact pw_any_fuel. Qed.
+Print Assumptions C02_no_overlap_any_fuel.
+Theorem C02_delivered_in_order_any_fuel : forall c maxatt buf evs, 0 <= c_acn c -> exists f0, forall fuel, (f0 <= fuel)%nat ->
+  exists g, mon_run_s fifo_ev fifo_out [] (run_steps fuel (init c maxatt buf) evs) = Some g
+            /\ let s := fst (run_events fuel (init c maxatt buf) evs) in dead2 s = false -> g = queued s ++ pext s.
+Proof. exact fifo_any_fuel. Qed.
+Print Assumptions C02_delivered_in_order_any_fuel.
+Theorem C02_fetch_offsets_contiguous_any_fuel : forall c maxatt buf evs, 0 <= c_acn c -> exists f0, forall fuel, (f0 <= fuel)%nat ->
+  exists gh, mon_run_s log_ev log_out log0 (run_steps fuel (init c maxatt buf) evs) = Some gh
+             /\ l_D gh ++ l_g gh = l_old gh ++ l_E gh.
+Proof. exact log_any_fuel. Qed.
+Print Assumptions C02_fetch_offsets_contiguous_any_fuel.
+Theorem C02_delivered_is_log_segment_any_fuel : forall c maxatt buf evs, 0 <= c_acn c -> forall L, increasing L ->
+  exists f0, forall fuel, (f0 <= fuel)%nat ->
+  honest_run L 0 (run_steps fuel (init c maxatt buf) evs) ->
+  exists gh, mon_run_s log_ev log_out log0 (run_steps fuel (init c maxatt buf) evs) = Some gh /\ log_ok L gh.
+Proof. exact log_segment_any_fuel. Qed.
+Print Assumptions C02_delivered_is_log_segment_any_fuel.
+Theorem C02_never_idle_any_fuel : forall c maxatt buf evs, 0 <= c_acn c -> exists f0, forall fuel, (f0 <= fuel)%nat ->
+  let s := fst (run_events fuel (init c maxatt buf) evs) in
+  startd_unfired s = true -> s_shutting s = false -> (is_some (s_req s) || rcall_active s) = true.
+Proof. exact never_idle_any_fuel. Qed.
+Print Assumptions C02_never_idle_any_fuel.
 
 (* The extraction loop against an honest broker (a contiguous run of the log starting at or before the first entry
    >= the fetch offset, cut anywhere): for EVERY log with strictly increasing offsets (gaps allowed) and every start
